@@ -98,7 +98,7 @@ static void _mpt_buffer_map_unref(MPT_INTERFACE(buffer) *ref)
 	if ((traits = b->buf._content_traits)
 	    && (fini = traits->fini)
 	    && (size = traits->size)) {
-		size_t len = b->buf._size;
+		size_t len = b->buf._used;
 		len -= len % size;
 		uint8_t *ptr = (void *) (b + 1);
 		size_t pos;
